@@ -13,7 +13,9 @@ Record rstate := { quoting : bool; seen : list nat }.
 Inductive beh :=
 | Done (raises : bool) (t : rstate -> text)
 | Look (k : rstate -> beh)
-| Call (o : nat) (inner : beh) (cont : text -> beh).
+| Call (o : nat) (inner : beh) (cont : text -> beh)
+(* the same call inside try/except: the printer goes on with the text, or with None when the call raised *)
+| CallCatch (o : nat) (inner : beh) (cont : option text -> beh).
 
 Inductive exit := Normal | Returned | Raised.
 
@@ -82,6 +84,8 @@ Fixpoint printer (b : beh) (st : rstate) : option text * rstate :=
       | None => (None, st1)
       | Some t => printer (cont t) st1
       end
+  | CallCatch o inner cont =>
+      let '(r, st1) := call_with (printer inner) o st in printer (cont r) st1
   end.
 
 Definition hy_repr_call (o : nat) (b : beh) (st : rstate) : option text * rstate := call_with (printer b) o st.
@@ -164,11 +168,26 @@ Qed.
 
 Lemma printer_restores b : forall st, inv st -> snd (printer ismodel ph protected_body b st) = st.
 Proof.
-  induction b as [r t|k IHk|o inner IHi cont IHc]; intros st Hinv; [destruct r; reflexivity| |].
+  induction b as [r t|k IHk|o inner IHi cont IHc|o inner IHi cont IHc]; intros st Hinv; [destruct r; reflexivity| | |].
   - cbn [printer]. apply IHk. exact Hinv.
   - cbn [printer]. pose proof (call_restores (printer ismodel ph protected_body inner) o st IHi Hinv) as E.
     destruct (call_with ismodel ph protected_body (printer ismodel ph protected_body inner) o st) as [r st1].
     cbn [snd] in E. subst st1. destruct r; [|reflexivity]. apply IHc. exact Hinv.
+  - cbn [printer]. pose proof (call_restores (printer ismodel ph protected_body inner) o st IHi Hinv) as E.
+    destruct (call_with ismodel ph protected_body (printer ismodel ph protected_body inner) o st) as [r st1].
+    cbn [snd] in E. subst st1. apply IHc. exact Hinv.
+Qed.
+
+(* a printer that catches the exception of a nested call goes on in the state it had before that call: every nested
+   call restores the state on its own exit, whether or not anything further out would have cleaned up *)
+Lemma catcher_sees_clean_state o inner cont st : inv st ->
+  printer ismodel ph protected_body (CallCatch o inner cont) st
+  = printer ismodel ph protected_body (cont (fst (hy_repr_call ismodel ph protected_body o inner st))) st.
+Proof.
+  intros Hinv. cbn [printer]. unfold hy_repr_call.
+  pose proof (call_restores (printer ismodel ph protected_body inner) o st (printer_restores inner) Hinv) as E.
+  destruct (call_with ismodel ph protected_body (printer ismodel ph protected_body inner) o st) as [r st1].
+  cbn [snd fst] in E |- *. subst st1. reflexivity.
 Qed.
 
 (* (1) every call of hy-repr, whatever the printers do, leaves _quoting and _seen as it found them *)
